@@ -492,6 +492,25 @@ impl MqttShared {
         }
     }
 
+    /// Wait until the send window is open.
+    ///
+    /// The window could be taken by another sender between the wake up and the moment
+    /// this task resumes, readiness must be checked again before the packet is sent.
+    pub(super) async fn wait_window(
+        &self,
+        mut rx: pool::Receiver<()>,
+    ) -> Result<(), SendPacketError> {
+        loop {
+            if rx.await.is_err() || self.is_closed() {
+                return Err(SendPacketError::Disconnected);
+            }
+            match self.wait_readiness() {
+                Some(next) => rx = next,
+                None => return Ok(()),
+            }
+        }
+    }
+
     pub(super) fn wait_readiness(&self) -> Option<pool::Receiver<()>> {
         let mut queues = self.queues.borrow_mut();
 
